@@ -460,7 +460,7 @@ def check_render(env, case, exc, verb, utf8, ignore, ansi, simple, keep_caches=F
     if not keep_caches:
         _trace.clear_trace_caches()
     io = make_io(verb, utf8, ansi)
-    pattern = {"none": None, "lib": "^" + re.escape(env.lib + os.sep), "nothing": "^/nonexistent-dir/"}[ignore]
+    pattern = {"none": None, "lib": "^" + re.escape(env.lib + os.sep), "nothing": "^/nonexistent-dir/", "pseudo": r"^<string>$"}[ignore]
     if trace is None:
         trace = ExceptionTrace(exc)
         if pattern:
@@ -647,9 +647,10 @@ def cases(env, tier):
             for verb, utf8, ignore, ansi in itertools.product(VERB, (True, False), IGNORE, (False, True)):
                 yield ["src", L, T, shape, verb, utf8, ignore, ansi]
     for which in ("exec", "gone"):
-        for verb, utf8, ignore, ansi in itertools.product(VERB, (True, False), IGNORE, (False, True)):
+        # exec'd code has the pseudo file name "<string>": a pattern naming it must hide its frames like any other
+        for verb, utf8, ignore, ansi in itertools.product(VERB, (True, False), tuple(IGNORE) + (("pseudo",) if which == "exec" else ()), (False, True)):
             yield ["nosrc", which, verb, utf8, ignore, ansi]
-    for verb1, verb2, utf8, ansi, recreate in itertools.product(VERB, VERB, (True, False), (False, True), (False, True)):
+    for verb1, verb2, utf8, ansi, recreate in itertools.product(VERB, VERB, (True, False), (False, True), (False, True, "short", "short-fresh")):
         yield ["vanish", verb1, verb2, utf8, ansi, recreate]
     for which, verb, utf8, ansi in itertools.product(sorted(FOREIGN_TEXTS), VERB, (True, False), (False, True)):
         yield ["foreign", which, verb, utf8, ansi]
@@ -696,14 +697,19 @@ def run_vanish(env, case):
         if v:
             return v
         os.unlink(path)
-        if recreate:
+        short = isinstance(recreate, str)
+        if short:
+            with open(path, "wb") as f:  # the file was cut down: the failing lines lie beyond its end now
+                f.write(VANISH_SRC.encode().split(b"\n")[0] + b"\n")
+        elif recreate:
             with open(path, "wb") as f:  # an edited file: same code object is still running
                 f.write(VANISH_SRC.encode())
-        if not recreate:
+        if short or not recreate:
             # the source is unavailable now: only "renders, names the class, shows the message" is demanded
             env.files.pop(path, None)
             _INFO.pop(path, None)
-        v = check_render(env, case, fail(), verb2, utf8, "none", ansi, False, keep_caches=True, minimal=not recreate)
+        v = check_render(env, case, fail(), verb2, utf8, "none", ansi, False, keep_caches=(recreate != "short-fresh"),
+                         minimal=short or not recreate)
         if v:
             v["sig"] = "vanish:" + v["sig"]
         return v
